@@ -139,6 +139,19 @@ def judge(lab, case):
             bad.append(("iteration-order", "list(pipeline) applies %s, the steps in application order are %s" % (names, case["names"])))
     got = _outcome(lambda: pipe.transform(copy.deepcopy(x), copy.deepcopy(o)))
     _cmp(bad, "transform", got, case["res"])
+    # parameters are read from the options when the pipeline is EVALUATED, not when it is applied
+    live = copy.deepcopy(o)
+    fn = _outcome(lambda: pipe.evaluate(live))
+    missing = (not case["res"]["ok"]) and case["res"]["cls"] == "KeyNotFound"
+    if missing and fn["ok"]:
+        bad.append(("params-at-evaluation", "evaluate() succeeded although a step parameter's option is missing (%s)" % sorted(keyset(case["res"]["keys"]))))
+    if fn["ok"]:
+        for k in list(live):
+            live[k] = 777
+        live["P"] = live["Q"] = 777
+        late = _outcome(lambda: fn["v"](copy.deepcopy(x)))
+        if case["res"]["ok"] or case["res"]["cls"] != "KeyNotFound":
+            _cmp(bad, "params-at-evaluation", late, case["res"])
     if isinstance(p, PipelineStep):
         _cmp(bad, "step-transform", _outcome(lambda: p.transform(copy.deepcopy(x), copy.deepcopy(o))), case["res"])
     ox = dict(copy.deepcopy(o), X=copy.deepcopy(x))
